@@ -249,10 +249,16 @@ def foldBinY (F : Facts) (a : Act) (nty : Ty) (v0 v1 : RV) : Res RV :=
     if isConst && g.entry == .binaryOp then
       match v0, v1 with
       | .c x, .c y =>
-        let tok : Tok := if g.tok == .byQuoSwitch then
-            (if nty.untyped && nty.isInt then F.eval.quo.thenTok else F.eval.quo.elseTok) else g.tok
         let x' := if g.toInt then x.toInt else x
         let y' := if g.toInt then y.toInt else y
+        if g.tok == .byQuoSwitch && F.eval.quo.rule == .other then .unm "quo-switch"
+        else
+        let sel : Bool := match F.eval.quo.rule with
+          | .operandKinds => (match x', y' with | .int _, .int _ => true | _, _ => false)
+          | .nodeType => nty.untyped && nty.isInt
+          | .other => false
+        let tok : Tok := if g.tok == .byQuoSwitch then
+            (if sel then F.eval.quo.thenTok else F.eval.quo.elseTok) else g.tok
         (cBinary tok x' y').bind fun r => .ok (.c r)
       | _, _ => .unm "fold-shape"
     else if isConst then .unm "fold-shape"
@@ -460,10 +466,11 @@ def unNodeY (F : Facts) (a : Act) (c0 : NS) : Res NS :=
   if !unaryPredY a c0.ty then .reject
   else (foldUnY F a c0.ty c0.rv).bind fun rv => .ok { rv := rv, ty := c0.ty, inner := c0.loose }
 
-/-- `fixUntyped(n, sc)` after a binary node got a typed `typ`: a descendant parenExpr that is still untyped and
-    carries a frame index makes it index `sc.types` -/
-def fixUntypedY (env : Env) (nty : Ty) (c0 c1 : NS) (rv : RV) : Res NS :=
-  if !nty.untyped && env.noFrame && (c0.loose || c1.loose) then .crash
+/-- `fixUntyped(n, sc)` after a binary node got a typed `typ`: before 08f21a9 (`fixSkipsConst = false`) a descendant
+    parenExpr that is still untyped and carries a frame index made it index `sc.types` (a Go panic when the package
+    scope has no variable yet); since then constants are skipped and nothing happens -/
+def fixUntypedY (F : Facts) (env : Env) (nty : Ty) (c0 c1 : NS) (rv : RV) : Res NS :=
+  if !F.eval.fixSkipsConst && !nty.untyped && env.noFrame && (c0.loose || c1.loose) then .crash
   else .ok { rv := rv, ty := nty, inner := if nty.untyped then c0.loose || c1.loose else false }
 
 /-- `check.shift`, right operand: an untyped count is converted to `uint`, a typed one must be of integer type -/
@@ -496,7 +503,7 @@ def shiftNodeY (F : Facts) (env : Env) (forced : Option Ty) (a : Act) (c0 c1 : N
   (checkShiftY F c0 c1).bind fun (c0', c1') =>
     let nty : Ty := if !c0'.ty.untyped then c0'.ty
       else (match forced with | some f => f | none => binTypeY true c0'.ty c1'.ty)
-    (foldShiftY F a nty c0'.rv c1'.rv).bind fun rv => fixUntypedY env nty c0' c1' rv
+    (foldShiftY F a nty c0'.rv c1'.rv).bind fun rv => fixUntypedY F env nty c0' c1' rv
 
 /-- `check.binaryExpr` for the arithmetic operators: the (possibly mutated) operands, or reject -/
 def checkBinaryY (F : Facts) (forced : Option Ty) (a : Act) (c0 c1 : NS) : Res (NS × NS) :=
@@ -522,7 +529,7 @@ def binNodeY (F : Facts) (env : Env) (forced : Option Ty) (a : Act) (c0 c1 : NS)
   (checkBinaryY F forced a c0 c1).bind fun (c0', c1') =>
     let nty : Ty := if a == Act.rem then c0'.ty
       else (match forced with | some f => f | none => binTypeY false c0'.ty c1'.ty)
-    (foldBinY F a nty c0'.rv c1'.rv).bind fun rv => fixUntypedY env nty c0' c1' rv
+    (foldBinY F a nty c0'.rv c1'.rv).bind fun rv => fixUntypedY F env nty c0' c1' rv
 
 /-- post-order case `callExpr`, conversion arm (check.conversion, then cfg.go) -/
 def convNodeY (F : Facts) (t : BT) (c1 : NS) : Res NS :=
@@ -554,8 +561,8 @@ def stripPar : CExpr → CExpr
   | e => e
 
 /-- constructs whose yaegi side is outside the model: comparison / logical operators and `!` are not folded at
-    all (they are compiled to run-time operations); `len` of a concatenation below a typed operator: `fixUntyped`
-    of that operator rewrites the `typ` of the concatenation node, and the second walk starts from it -/
+    all (they are compiled to run-time operations). (`len` of a concatenation below a typed operator was outside
+    the model too while `fixUntyped` of that operator rewrote the `typ` of the concatenation node.) -/
 def unmodelledU (underBin : Bool) : CExpr → Option String
   | .un a x => if isBoolAct a then some "bool-ops" else unmodelledU underBin x
   | .bin a x y =>
@@ -563,10 +570,7 @@ def unmodelledU (underBin : Bool) : CExpr → Option String
     else (match unmodelledU true x with | some w => some w | none => unmodelledU true y)
   | .conv _ x => unmodelledU underBin x
   | .par x => unmodelledU underBin x
-  | .len x =>
-    (match stripPar x with
-     | .bin _ _ _ => if underBin then some "len-of-concatenation" else unmodelledU underBin x
-     | _ => unmodelledU underBin x)
+  | .len x => unmodelledU underBin x     -- since 2e4657a `fixUntyped` does not descend into the argument of a call
   | .bool _ => some "bool-ops"
   | _ => none
 
